@@ -195,6 +195,13 @@ namespace vh
         case 2: sp.GetProperty<std::string>("nosuch"); break;
         case 3: sp.GetProperty<bool>("nosuch"); break;
         case 4: sp.GetProperty<int>("nosuch"); break;
+        case 5: sp.GetProperty<float>("molecular weight [kg mol-1]"); break;
+        // the key exists, but under ANOTHER value type: for the type asked for it is missing
+        case 6: sp.SetProperty<int>("count", 3); sp.GetProperty<double>("count"); break;
+        case 7: sp.GetProperty<std::string>("molecular weight [kg mol-1]"); break;
+        case 8: sp.SetProperty<std::string>("tag", "x"); sp.GetProperty<int>("tag"); break;
+        case 9: sp.SetProperty<bool>("flag", true); sp.GetProperty<double>("flag"); break;
+        case 10: sp.SetProperty<double>("w", 1.5); sp.GetProperty<bool>("w"); break;
         default: sp.GetProperty<float>("molecular weight [kg mol-1]"); break;
       }
       return "errc ok";
